@@ -126,7 +126,7 @@ def c02(tier, seed):
             c["passes"] = [rng.choice(gen.PASS_NAMES) for _ in range(rng.randint(0, 6))]
     r = parse_family("C02", tier, seed, [
         ("X", {"cases": gen.opt_cases(seed + 5, _sizes(tier, 900, 12000))}),
-        ("X", {"cases": g1 + g2}),
+        ("X", {"cases": g1 + g2 + gen.skip_trivia_cases()}),
         ("G3", {}),
     ], ["C02"])
     r.rule = RULE_PARSE + (" Each grammar comes with an optimizer configuration: the default pipeline, one pass alone, or a "
@@ -157,6 +157,8 @@ def c04(tier, seed):
     r = parse_family("C04", tier, seed, [
         ("X", {"cases": cases}),
         ("G2", {"n": _sizes(tier, 600, 10000)}),
+        ("X", {"cases": [c for c in gen.opt_cases(seed + 3, _sizes(tier, 300, 4000))
+                         if "WHITESPACE" in c["grammar"] or "COMMENT" in c["grammar"]] + gen.skip_trivia_cases()}),
     ], ["C04"])
     r.rule = RULE_PARSE + " Restricted to grammars with trivia rules and/or atomicity modifiers. Judge: every mode vs the reference semantics."
     return r
